@@ -2488,7 +2488,7 @@ impl<'c, 's:'c, 'r, 'm:'c> SpeechRulesWithContext<'c, 's,'m> {
     fn replace<T:TreeOrString<'c, 'm, T>>(&'r mut self, replacement: &Replacement, mathml: Element<'c>) -> Result<T> {
         #[cfg(mathcat_verif)]
         verif::ev(|| format!("I {}", match replacement {
-            Replacement::Text(_) => "T", Replacement::XPath(_) => "X", Replacement::TTS(_) => "S", Replacement::Intent(_) => "N",
+            Replacement::Text(t) => return format!("I T{}", t), Replacement::XPath(_) => "X", Replacement::TTS(_) => "S", Replacement::Intent(_) => "N",
             Replacement::Test(_) => "?", Replacement::With(_) => "W", Replacement::SetVariables(_) => "V", Replacement::Insert(_) => "+",
             Replacement::Translate(_) => "L",
         }));
@@ -2870,7 +2870,7 @@ pub mod verif {
 
     /// one event of the rule-evaluation trace (only built when the trace is on):
     /// `P rules tag` match_pattern called on an element with that set of rules, `T file|name|tag` rule tried, `H n` it matched an element with n element children, `R-` its replacement is done,
-    /// `I k` replacement item of kind k dispatched, `c` test entry visited, `y` its condition held, `n k` insert over k nodes,
+    /// `I k` replacement item of kind k dispatched (`I T` is followed by the literal as the engine stores it), `c` test entry visited, `y` its condition held, `n k` insert over k nodes,
     /// `U+ code rules` / `U-` Unicode replacement of a character
     pub fn ev<F: FnOnce() -> String>(f: F) {
         EVAL_LOG.with(|log| {
